@@ -119,6 +119,54 @@ theorem strideUp_sim (r : Nat) (z : α) (p0 : π) (ins : List (In (α × π))) :
     ins (strideUp r z p0).init
   exact h
 
+/-! ### PipelinedActor, any latency (the `ce_pipeline` lemma) -/
+
+/-- Tokens in the stages, oldest (last stage) first. -/
+def paInflight (s : List (Bool × Tok α)) : List (Tok α) := ((s.filter (·.1)).map (·.2)).reverse
+
+theorem paInflight_concat (s : List (Bool × Tok α)) (x : Bool × Tok α) :
+    paInflight (s ++ [x]) = (if x.1 then [x.2] else []) ++ paInflight s := by
+  unfold paInflight
+  cases hx : x.1 <;> simp [List.filter_append, hx]
+
+theorem paInflight_cons (s : List (Bool × Tok α)) (x : Bool × Tok α) :
+    paInflight (x :: s) = paInflight s ++ (if x.1 then [x.2] else []) := by
+  unfold paInflight
+  cases hx : x.1 <;> simp [List.filter_cons, hx]
+
+theorem paInflight_length_le (s : List (Bool × Tok α)) : (paInflight s).length ≤ s.length := by
+  simp only [paInflight, List.length_reverse, List.length_map]
+  exact List.length_filter_le _ _
+
+theorem dropLast_cons_concat {β : Type} (y x : β) (l : List β) : (y :: (l ++ [x])).dropLast = y :: l := by
+  rw [← List.cons_append, List.dropLast_concat]
+
+def paRel (L : Nat) (s : List (Bool × Tok α)) (a d : List (Tok α)) : Prop :=
+  s.length = L ∧ a = d ++ paInflight s
+
+theorem pipeActor_step (L : Nat) (z : Tok α) (s : List (Bool × Tok α)) (a d : List (Tok α)) (i : In α)
+    (h : paRel L s a d) :
+    paRel L ((pipeActor L z).step s i) (a ++ (pipeActor L z).accNow s i) (d ++ (pipeActor L z).delNow s i) := by
+  obtain ⟨iv, ⟨td, tf, tl⟩, ir⟩ := i
+  obtain ⟨hl, h2⟩ := h
+  subst h2
+  rcases List.eq_nil_or_concat s with rfl | ⟨init, x, rfl⟩
+  · -- L = 0: combinational
+    refine ⟨by simpa [pipeActor, Elem.step] using hl, ?_⟩
+    cases iv <;> cases ir <;> cases tf <;> cases tl <;>
+      simp [pipeActor, Elem.step, Elem.accNow, Elem.delNow, Elem.out, paIn, paInflight]
+  · obtain ⟨xv, xt⟩ := x
+    have hlast : (init ++ [(xv, xt)]).getLast? = some (xv, xt) := by simp
+    refine ⟨?_, ?_⟩
+    · simp only [pipeActor, Elem.step, hlast, Option.getD_some]
+      split
+      · rw [← hl]
+        simp [dropLast_cons_concat]
+      · exact hl
+    · cases xv <;> cases iv <;> cases ir <;>
+        simp [pipeActor, Elem.step, Elem.accNow, Elem.delNow, Elem.out, hlast, paInflight_concat, paInflight_cons,
+          dropLast_cons_concat, paIn]
+
 /-! ### Shifter (PipelinedActor, latency 2) -/
 
 /-- What the sink token looks like inside the pipeline (data truncated to `dw` bits, `shift` dropped). -/
